@@ -48,12 +48,16 @@ def gen_case(seed, i, tier):
     r = core.Rng("c10", seed, i)
     o = {}
     n = r.choice([32, 40, 48, 64, 64, 96, 128] if tier == "thorough" else [32, 40, 48, 64, 64, 96])
-    if r.chance(0.15):
-        n += 1
+    if r.chance(0.25):
+        n += r.choice([1, 2, 3])           # every residue modulo 4 (blocked / unrolled loops over columns)
     o["GridSize"] = n
     if r.chance(0.6):
         o["PhaseSpaceShiftX"] = round(r.uniform(-4, 4), 2)
         o["PhaseSpaceShiftY"] = round(r.uniform(-4, 4), 2)
+        if i % 5 == 3:
+            # grid shifted by up to a quarter of its size: noticeable charge in the outermost columns / rows
+            o["PhaseSpaceShiftX"] = round(r.uniform(0.15, 0.27) * n * r.choice([-1, 1]), 2)
+            o["PhaseSpaceShiftY"] = round(r.uniform(0.15, 0.27) * n * r.choice([-1, 1]), 2)
         if abs(o["PhaseSpaceShiftX"] - o["PhaseSpaceShiftY"]) < 0.3:
             o["PhaseSpaceShiftY"] += 1.0
     steps = r.choice([37, 50, 64, 100, 200, 400])
